@@ -170,6 +170,15 @@ fn ast_respellings(n: &Node) -> Vec<(&'static str, Node)> {
     if &r != n {
         out.push(("T5 ^ $ -> \\A \\z", r));
     }
+    // ... and inside multi-line mode \A and \z stay text anchors: \A <-> (?-m:^), \z <-> (?-m:$)
+    let r = map(n, &|x| match x {
+        Node::Assert(A::BigA) if multiline => Some(Node::FlagGroup("-m".into(), Box::new(Node::Assert(A::Start)))),
+        Node::Assert(A::SmallZ) if multiline => Some(Node::FlagGroup("-m".into(), Box::new(Node::Assert(A::End)))),
+        _ => None,
+    });
+    if &r != n {
+        out.push(("T5 (?m) \\A \\z -> (?-m:^) (?-m:$)", r));
+    }
     let r = map(n, &|x| match x {
         Node::Repeat(c, lo, hi, Mode::Possessive) => Some(ast::atomic(ast::rep((**c).clone(), *lo, *hi, Mode::Greedy))),
         _ => None,
@@ -224,6 +233,14 @@ fn flag_patterns() -> Vec<Node> {
                 v.push(ast::cat(vec![ast::la(inner.clone()), y.clone()]));
             }
         }
+    }
+    // \A and \z inside multi-line mode
+    for x in [lit("a"), Node::Dot, lit("b")] {
+        v.push(Node::FlagGroup("m".into(), Box::new(ast::cat(vec![Node::Assert(A::BigA), x.clone()]))));
+        v.push(Node::FlagGroup("m".into(), Box::new(ast::cat(vec![x.clone(), Node::Assert(A::SmallZ)]))));
+        v.push(Node::FlagGroup("m".into(), Box::new(ast::cat(vec![Node::Assert(A::Start), x.clone(), Node::Assert(A::SmallZ)]))));
+        v.push(ast::cat(vec![ast::la(Node::FlagGroup("m".into(), Box::new(ast::cat(vec![Node::Assert(A::BigA), x.clone()])))), Node::Dot]));
+        v.push(Node::FlagGroup("m".into(), Box::new(ast::cat(vec![ast::grp(x.clone()), lit("\n"), Node::Assert(A::BigA), Node::Backref(1)]))));
     }
     // \h and \e
     v.push(Node::Raw("\\h".into(), 1));
